@@ -278,6 +278,9 @@ class Probe:
         object.__setattr__(self, 'beta', 'B')
         object.__setattr__(self, '_hidden', 'H')
         object.__setattr__(self, '_Probe__mangled', 'M')
+        # names that contain a listed name at their end / start / inside
+        object.__setattr__(self, 'sub_alpha', 'SA')
+        object.__setattr__(self, 'alpha_x', 'AX')
 
     def __getattribute__(self, name):
         if name not in ('__class__', '__yaqlization__', '__dict__'):
@@ -298,6 +301,12 @@ class Probe:
     def m_two(self):
         return 'm_two'
 
+    def pre_m_one(self):
+        return 'pre_m_one'
+
+    def m_one_more(self):
+        return 'm_one_more'
+
     @staticmethod
     def smeth(x=0):
         return ('smeth', x)
@@ -312,10 +321,15 @@ class Probe:
 
 MEMBERS = ['alpha', 'beta', 'prop', 'm_one', 'm_two', 'smeth', 'cmeth',
            '_hidden', '_pmeth', '_Probe__mangled', 'nosuch', 'x', 'y',
-           'Alpha']
+           'Alpha', 'sub_alpha', 'alpha_x', 'pre_m_one', 'm_one_more']
+# members whose names contain a listed string entry without being it
+AFFIXED = {'alpha': ['sub_alpha', 'alpha_x'], 'x': ['alpha_x'],
+           'm_one': ['pre_m_one', 'm_one_more'], 'one': ['m_one', 'pre_m_one'],
+           'lph': ['alpha', 'sub_alpha']}
 ENTRY_POOL = {
     's:alpha': 'alpha', 's:m_one': 'm_one', 's:beta': 'beta', 's:x': 'x',
     's:prop': 'prop', 's:m_two': 'm_two', 's:_hidden': '_hidden',
+    's:one': 'one', 's:lph': 'lph',
     'r:^m_': re.compile('^m_'), 'r:a$': re.compile('a$'),
     'r:meth': re.compile('meth'), 'r:.': re.compile('.'),
     'p:len5': lambda n: len(n) == 5, 'p:has_e': lambda n: 'e' in n,
@@ -608,6 +622,9 @@ def policy_cases(draw):
                  else REMAP_POOL[r][1][0]) for r in s['remap']]
     special += [ENTRY_POOL[e] for e in s['white'] + s['black']
                 if isinstance(ENTRY_POOL[e], str)]
+    for e in s['white'] + s['black']:
+        if isinstance(ENTRY_POOL[e], str):
+            special += AFFIXED.get(ENTRY_POOL[e], [])
     if special and draw(st.booleans()):
         names = special
     c = {'kind': 'policy', 'settings': s,
